@@ -21,18 +21,21 @@ Proved RELATIVE to `RefineSim I` (one call of the generated `refine` simulates o
 of the generated state): `gen_refine_msh_bdr_eq_partial` (end-point sorting, axis selection, `while True` loop),
 `gen_uniform_refine_eq_partial`, and the C16 results for the generated functions (`gen_refine_ok_partial`, `gen_bdr_target_partial`).
 
-NOT proved: `RefineSim I` for an invariant `I` that holds for `UnitSquare()` / `LShape()`, i.e. the full statement
+`RefineSim I` itself IS proved, in `Props/QuadtreeSim.lean` (which imports this file), for the invariant
+`CohInv g := Coherent g ∧ QInv (absMesh g)` where `Coherent g` (`Lemmas/QuadtreeCoherent.lean`) says that `nbrs` holds exactly the
+directed edges of all elements, `__bisect_edge` those of the refined elements (with the mid-point vertex), `parent_edge` the two
+halves of those, that vertex indices are positions and every element is `Shaped`; `Coherent` is evaluated by the kernel on the
+generated `UnitSquare()` / `LShape()`.  There: the full statement
 
     theorem gen_refine_eq (g : GMesh) (hI : Coherent g) (hq : QInv (absMesh g)) (e : GElem) (he : e ∈ g.elements) :
         (fun r => absMesh r.1) <$> QuadtreeGen.refineCall g e = refine (e.level + 1) (absMesh g) (absElem (nRoots g) e)
-          ∧ (∀ r, QuadtreeGen.refineCall g e = .ok r → Coherent r.1)
+          ∧ (∀ r, QuadtreeGen.refineCall g e = .ok r → Coherent r.1 ∧ QInv (absMesh r.1))
 
-where `Coherent g` says that `nbrs` holds exactly the directed edges of all elements, `__bisect_edge` those of the refined elements
-(with the mid-point vertex), `parent_edge` the two halves of those, that vertex indices are positions and every element is `Shaped`.
-What is missing is the preservation of `Coherent` by the four `bisect_edge` calls and the registration loops of `refine` (an
-induction comparable in size to `Lemmas/HalfEdge*.lean`).  It is covered instead by (1) the generated twins: every `qt …` request of
-the C16 correspondence (18 230 in the quick tier) is answered by the generated functions as well and compared with the real
-code, and (2) the kernel-evaluated runs below (`gen_run_*`), where both sides are computed.
+and the unconditional versions `gen_refine_msh_bdr_eq`, `gen_uniform_refine_eq`, `gen_refine_ok`, `gen_qt_inv`,
+`gen_bdr_target` of the `_partial` theorems below for every state reachable from the generated `UnitSquare()` / `LShape()`.
+The `_partial` theorems stay here as the lemmas they are proved from.  Nothing of the statement announced earlier is missing;
+what remains trusted is the object model of the translator (header of `Gen/QuadtreeGen.lean`).  The generated twins of the C16
+correspondence and the kernel-evaluated runs below (`gen_run_*`) remain as independent evidence.
 -/
 namespace Stbem.QuadtreeTie
 open Stbem.Quadtree Stbem.Gen
@@ -125,7 +128,7 @@ example : absScan 1 <$> [rootElem].foldlM (QuadtreeGen.InitialMesh_refine_msh_bd
       subst he
       exact ⟨rfl, rfl, rfl, rfl, by norm_num [rootElem], by norm_num [rootElem]⟩)
 
-/-! ## 2. proved relative to `RefineSim` (see the header: what is missing is an invariant for which `RefineSim` holds) -/
+/-! ## 2. proved relative to `RefineSim` (`RefineSim CohInv` is proved in `Props/QuadtreeSim.lean`) -/
 
 /-- `refine_msh_bdr(a, b)` regenerated from the source: sorting of the end points (`tuple(v0) > tuple(v1)`), selection of the
 axis (`for i in range(2)`, the last hit wins), `assert axis is not None`, the `while True` loop with its scan, `assert parent`
@@ -225,8 +228,8 @@ theorem gen_bdr_target_partial {I : GMesh → Prop} (hI : RefineSim I) (g : GMes
       exact ⟨v, ho, by rw [hm]; exact hv⟩
   exact ⟨r, hr, hi1, h2, h3, h4, h5, h6, h7, h8, vtx a h9, vtx b h10, h11⟩
 
-/-- `RefineSim` is not an empty notion only if some invariant satisfies it; the trivial instance shows the structure is
-consistent, the kernel-evaluated runs of section 3 show its conclusion on concrete states -/
+/-- the trivial instance shows the structure is consistent; the instance that matters (`CohInv`, satisfied by the generated
+`UnitSquare()` / `LShape()`) is `gen_refineSim` in `Props/QuadtreeSim.lean` -/
 example : RefineSim (fun _ => False) :=
   ⟨fun _ h => h.elim, fun _ h => h.elim, fun _ h => h.elim, fun _ h => h.elim, fun _ h => h.elim, fun _ h => h.elim⟩
 
